@@ -332,4 +332,37 @@ theorem node_factory_layer_feeds {r : RawLayer} {b : Bag} (h : r.factory = .ok b
   obtain ⟨i, _, _, rfl⟩ := nodeAt_some hn
   exact .bag (nodeAt_mem hn) ho
 
+/-- **Node level: `layer._decorate(...)(f)` for one layer - the inverse sees what `f` returned.**  Let the state `pipeline >> f` have the context
+`ChainContext(layer, f)` with the layer's `BagContext(bi, bo, inh)` and the context of the wrapped function (which inherits the names `inhf` it
+returns), and let its outputs have pairwise different names.  For every backward input `n` of the layer whose name `f` returns (`o` is that
+output of the state), the decorated graph feeds `n` from `o` through the clone the function's context hands on: `n` computes exactly what `o`
+computes in `pipeline >> f` - for every well-formed pipeline and every `f`, no feeding relation assumed. -/
+theorem node_decorated_layer_input (b fb r : Bag) (h : b.loopbackWith fb = .ok r) :
+    ∃ state es, connectBags b fb = .ok state ∧ r.edges = state.edges ++ es ∧
+      ∀ (bi bo : List BNode) (inh inhf : NameSet) (n o : BNode),
+        state.ctx = .chain (.bag bi bo inh) (.bag [] [] inhf) → (names state.outputs).Nodup →
+        n ∈ bi → o ∈ state.outputs → o.name = n.name → inhf.mem n.name = true →
+        ∃ c, c.name = n.name ∧ (n ∉ r.inputs → c ∉ r.inputs → ¬ Down r.edges (es.map (·.out)) o → ∀ t, BDen r n t ↔ BDen state o t) := by
+  obtain ⟨state, es, hst, he, hall⟩ := node_decorated_input_is_f_output b fb r h
+  refine ⟨state, es, hst, he, ?_⟩
+  intro bi bo inh inhf n o hctx hnd hn ho hname hinh
+  -- the clone the function's context creates for `o`
+  obtain ⟨c, hcn, hpass⟩ := bag_pass_exists [] [] inhf state.outputs state.next o ho (by rw [hname]; exact hinh) (by simp [names])
+  have hrev := fn_ctx_reverse inhf state.outputs state.next hnd
+  -- the clones have pairwise different names (they are the names of a sublist of the outputs)
+  cases hpass with
+  | bag hc hedge =>
+    have hcl_names := cloneEdges_names false (state.outputs.filter fun m => inhf.mem m.name && !(names []).contains m.name) state.next
+    have hnd_cl : (names (cloneEdges false (state.outputs.filter fun m => inhf.mem m.name && !(names []).contains m.name) state.next).1).Nodup := by
+      rw [hcl_names, names_filter state.outputs fun x => inhf.mem x && !(names ([] : List BNode)).contains x]
+      exact List.Nodup.sublist List.filter_sublist hnd
+    have hby : byName (cloneEdges false (state.outputs.filter fun m => inhf.mem m.name && !(names []).contains m.name) state.next).1 n.name = some c := by
+      have := byName_of_mem (names_inj_of_nodup hnd_cl) hc
+      rw [hcn.trans hname] at this
+      exact this
+    refine ⟨c, hcn.trans hname, fun hnr hcr hd t => ?_⟩
+    refine hall n c o ?_ ?_ hnr hcr hd t
+    · rw [hctx]; exact .earlier hrev (.bag hn hby)
+    · rw [hctx]; exact .later (.bag hc hedge)
+
 end CM.C10
